@@ -139,8 +139,9 @@ type leafCtx struct {
 	used       map[string]bool
 	sites      map[token.Pos]string // call site -> name of the external value read there
 	nsite      map[string]int
-	caps       map[string]bool // slices modelled with a capacity
-	fileDeps   map[string]bool // Gen modules of the leaves called
+	caps       map[string]bool   // slices modelled with a capacity
+	fileDeps   map[string]bool   // Gen modules of the leaves called
+	aliasOf    map[string]string // local name -> the slice parameter it is another name for
 }
 
 func (c *leafCtx) fail(format string, a ...any) {
@@ -190,9 +191,12 @@ func (c *leafCtx) leanType(e ast.Expr) string {
 			return "Ctx"
 		}
 	}
-	if st, ok := e.(*ast.StarExpr); ok {
-		if _, isArr := st.X.(*ast.ArrayType); isArr {
-			return c.leanType(st.X)
+	if st, ok := e.(*ast.StarExpr); ok { // *[]T: the callee may reslice / replace the slice: modelled with its capacity
+		if at, isArr := st.X.(*ast.ArrayType); isArr && at.Len == nil {
+			if et := c.leanType(at.Elt); et != "" {
+				return "C_" + et
+			}
+			return ""
 		}
 	}
 	if se, ok := e.(*ast.SelectorExpr); ok {
@@ -711,7 +715,11 @@ func (c *leafCtx) expr(e ast.Expr, want string) (string, string) {
 		switch x.Op {
 		case token.LAND, token.LOR:
 			a, _ := c.expr(x.X, "Bool")
+			nb := len(c.binds)
 			b, _ := c.expr(x.Y, "Bool")
+			if c.gen7 && len(c.binds) != nb { // hoisting it would evaluate it even when the left operand decides
+				c.fail("an operation that may fail under the right operand of && / ||")
+			}
 			op := "&&"
 			if x.Op == token.LOR {
 				op = "||"
